@@ -83,6 +83,7 @@ type world struct {
 	nAudits int
 
 	shadowSuspect bool // the trace shadow disagreed with Stat() on a visible scope
+	viewCreating  bool // observe through ViewService/ViewProtocol/ViewPeer too (they create scopes): drawn per run
 	changed       int  // operations that changed the ledger
 	refused       int  // operations refused for lack of room
 
@@ -233,6 +234,16 @@ func (w *world) read(view []int, focus *node) readings {
 		}
 	}
 	for _, i := range view {
+		// OBSERVER EFFECT: Stat(), the handles' Stat() and ViewSystem/ViewTransient only take locks and
+		// read. ViewService/ViewProtocol/ViewPeer are different: they go through get*Scope, which
+		// CREATES the scope when it does not exist (e.g. after GC collected it, or after a SetPeer that
+		// was refused before it reached the peer scope) and takes/drops a reference. Read after every
+		// operation they would make sure that no workload operation is ever the first to (re)create a
+		// service/protocol/peer scope. Whether these three are used for observation is therefore drawn
+		// per run (world.viewCreating); without them the same scopes are still read through Stat().
+		if i >= sSvc0 && !w.viewCreating {
+			continue
+		}
 		if v, ok := w.viewStat(i); ok && v != rd.imp[i] {
 			w.violate("C03/stat-inconsistent/"+className(i), "View(%s).Stat() = %v but ResourceManagerState.Stat() = %v", scopeLabel(i), v, rd.imp[i])
 		}
